@@ -139,6 +139,10 @@ pub fn render(c: &Value) -> String {
         lines.push(format!("{name} {vt} ::= {t}"));
         i += 1;
     }
+    // a named number takes precedence over a value assignment of the same name (X.680 19.10): a decoy with another number
+    if s(&c["term"]["f"]) == "namednum" {
+        lines.push(format!("{} INTEGER ::= 4711", s(&c["term"]["name"])));
+    }
     if s(&c["pos"]) == "assign" {
         lines.push(format!("val {gov} ::= {text}"));
     } else {
